@@ -15,7 +15,8 @@ CONSTANTS Keys,      \* sequence of key names, each a sequence of characters, e.
           Kids,      \* set of children, e.g. {"c1", "c2"}
           Family,    \* "contract" (C16) | "range" (C17) | "lease" (C19)
           TTLs,      \* lease: TTLs in half seconds, e.g. {1, 2, 3, 4}
-          MaxNow     \* lease: clock bound in half seconds
+          MaxNow,    \* lease: clock bound in half seconds
+          LeaseKeys  \* range family: keys (indices) on which leases are taken
 
 Emit(r) == PrintT("@@" \o ToJson(r))
 KI == 1..Len(Keys)
@@ -80,6 +81,7 @@ ContractOps ==
 RangeOps ==
   [m : {"put"}, k : KI, v : Vals \cup {None}] \cup [m : {"delete"}, k : KI] \cup [m : {"append"}, k : KI, c : Kids]
   \cup [m : {"rangekeys"}, lo : 0..H, hi : 0..H] \cup [m : {"removekeys", "xfer"}, ks : SUBSET KI]
+  \cup [m : {"acquire"}, k : LeaseKeys, ttl : {4}] \cup [m : {"release"}, k : LeaseKeys, tok : {"cur"}]      \* lease-only keys must be listed and transferred too
 LeaseOps ==
   [m : {"acquire"}, k : {1}, ttl : TTLs] \cup [m : {"renew"}, k : {1}, ttl : TTLs, tok : {"cur", "stale", "forged", "zero"}]
   \cup [m : {"release"}, k : {1}, tok : {"cur", "stale", "forged", "zero"}] \cup [m : {"tick"}, d : {1, 3}]
@@ -90,7 +92,7 @@ Init == st = Empty
 (* "now = expiry" is left out of the generated space: the backends compare with > / >= one nanosecond apart there *)
 Admissible(s, op) ==
   /\ (op.m = "tick" => s.now + op.d <= MaxNow)
-  /\ (op.m \in {"acquire", "renew"} => s.now # s.lease[1])
+  /\ (op.m \in {"acquire", "renew"} => (s.lease[op.k] = 0 \/ s.now # s.lease[op.k]))
   /\ (op.m \in {"renew", "release"} /\ op.tok = "stale" => TRUE)
 Next == \E op \in Ops : Admissible(st, op) /\
           LET r == Do(st, op) IN st' = r.st /\ Emit([from |-> st, op |-> op, ret |-> r.ret, to |-> r.st])
